@@ -361,14 +361,16 @@ def _piece_lines(case, piece, n_suite, lo=None, hi=None, header=True, marks=True
     return lines
 
 
-def render_files(case) -> dict:
+def render_files(case, here=None) -> dict:
     """-> {file name: text}.  `t.case` is the test case; `exactly.suite` (same directory: the case is run as part of
     it) holds the leading case['suite'][phase] items of the phases; case['inc'] = [{'p': piece selector, 'a': offset,
     'b': length, 'm': 'plain'|'header'|'nested'|'absorb'}] moves a range of the items of a piece into an included file
     (`including FILE`: "equivalent to having the contents of the included file in the including file"; 'header': the
     included file declares the phase itself; 'nested': through a second inclusion, relative to the directory of the
     including file; 'absorb': the included file also contains the complete following piece - another phase - of the
-    main file).  None of this changes the meaning of the case."""
+    main file).  None of this changes the meaning of the case - but for `-rel-here` ("the location of the current source
+    file"): if `here` is a dict it receives {(phase, item index): directory relative to the home directory} for the
+    items that are written in a file of another directory."""
     n_suite = _suite_counts(case)
     pcs = pieces(case)
     files = {}
@@ -417,6 +419,10 @@ def render_files(case) -> dict:
                     body.append('$ echo %s >> {MARKERS}' % MARK_LAST)
             main += _piece_lines(case, pc, n_suite, lo, a, header=False)
             if mode == 'nested':
+                if here is not None:
+                    for i in range(a, b):
+                        if not in_suite(case, n_suite, ph, i):
+                            here[(ph, i)] = 'd1/e'
                 files['d1/' + name] = 'including e/%s\n' % name
                 files['d1/e/' + name] = '\n'.join(body) + '\n'
                 main.append('including d1/' + name)
